@@ -1,1 +1,389 @@
-(* placeholder; being written *)
+(** Executable model of the farm-boosted-yields module as hosted by dex/farm, on top of
+    [Model.Weekly] (the weekly-rewards-splitting module it instantiates).
+
+    Mirrors, function by function and guard by guard:
+      energy-integration/farm-boosted-yields/src/boosted_yields_factors.rs
+          (BoostedYieldsConfig::new / update / get_factors_for_week / get_latest_factors,
+           setBoostedYieldsFactors, try_get_boosted_yields_config, update_boosted_yields_config)
+      energy-integration/farm-boosted-yields/src/lib.rs
+          (take_reward_slice, claim_boosted_yields_rewards, set_farm_supply_for_current_week,
+           clear_user_energy_if_needed, collectUndistributedBoostedRewards,
+           FarmBoostedYieldsWrapper::collect_rewards_for_week / get_user_rewards_for_week)
+      energy-integration/common-modules/weekly-rewards-splitting/src/base_impl.rs
+          (collect_and_get_rewards_for_week with this wrapper's collect)
+      dex/farm/src/lib.rs, dex/farm/src/base_functions.rs, common/modules/farm/farm_base_impl/src/*.rs
+          (which endpoint calls which module function, in which order, with which position amount)
+
+    Modelling style (the same as Model/Farm.v's input [b]): facts that belong to the farm proper are
+    operation INPUTS taken from the real observation —
+      [pre]    the farm-level guards of the endpoint hold (contract active, payments well formed, ...)
+      [cur]    get_energy_entry(user): the factory's entry depleted to the current epoch
+      [pos]    user_total_farm_position(user) at the moment the endpoint reads it for the boosted claim
+               (i.e. BEFORE check_and_update_user_farm_position / increase / decrease)
+      [posa]   user_total_farm_position(user) after exitFarm's decrease (clear_user_energy_if_needed)
+      [full]   the emission minted by this operation's generate_aggregated_rewards (0 if none)
+      [supply] farm_token_supply handed to set_farm_supply_for_current_week.
+    The model's output [o_b] (total boosted payout) is exactly Model/Farm.v's input [b].
+    No proofs in this file. *)
+From MX Require Import Base.Prelude Gen.Params Model.Weekly.
+
+Definition ADMIN : Z := 100.                        (* owner / admin of the farm *)
+Definition RTOK : Z := 1.                           (* code of the reward token in payment lists *)
+(** BOOSTED_YIELDS_FACTORS_ARRAY_LEN = USER_MAX_CLAIM_WEEKS + 1 (boosted_yields_factors.rs:9) *)
+Definition NSLOTS : Z := USER_MAX_CLAIM_WEEKS + 1.
+(** collect_rewards_offset = USER_MAX_CLAIM_WEEKS + 1usize (lib.rs:52) *)
+Definition COLLECT_OFFSET : Z := USER_MAX_CLAIM_WEEKS + 1.
+
+(** ------------------------------------------------------------------ boosted_yields_factors.rs *)
+Record factors := mkFac {
+  fa_max : Z;      (* max_rewards_factor *)
+  fa_ce : Z;       (* user_rewards_energy_const *)
+  fa_cf : Z;       (* user_rewards_farm_const *)
+  fa_mine : Z;     (* min_energy_amount *)
+  fa_minf : Z      (* min_farm_amount *)
+}.
+Definition fac0 : factors := mkFac 0 0 0 0 0.
+
+(** factors_per_week: slot NSLOTS-1 is the week [c_last], slot NSLOTS-1-k the week [c_last - k] *)
+Record bconfig := mkCfg { c_last : Z; c_slots : list factors }.
+
+Definition cfg_new (cw : Z) (f : factors) : bconfig := mkCfg cw (repeat f (Z.to_nat NSLOTS)).
+
+Definition last_slot (c : bconfig) : factors := nth (Z.to_nat (NSLOTS - 1)) (c_slots c) fac0.   (* get_latest_factors *)
+
+Definition cfg_update (c : bconfig) (cw : Z) (nf : option factors) : result bconfig :=
+  check (c_last c <=? cw) else EGuard;                                    (* Invalid config week *)
+  let d := Z.min (cw - c_last c) NSLOTS in
+  if d =? 0 then
+    Ok (match nf with
+        | Some f => mkCfg (c_last c) (firstn (Z.to_nat (NSLOTS - 1)) (c_slots c) ++ [f])
+        | None => c
+        end)
+  else
+    let cl := last_slot c in
+    let latest := match nf with Some f => f | None => cl end in
+    (* drain(0..d); push d-1 copies of the current last; push the latest *)
+    Ok (mkCfg cw (skipn (Z.to_nat d) (c_slots c) ++ repeat cl (Z.to_nat (d - 1)) ++ [latest])).
+
+Definition get_factors_for_week (c : bconfig) (week : Z) : result factors :=
+  check (week <? c_last c) else EGuard;
+  let off := c_last c - week in
+  check (off <? NSLOTS) else EGuard;
+  Ok (nth (Z.to_nat (NSLOTS - 1 - off)) (c_slots c) fac0).
+
+(** ------------------------------------------------------------------ the module's own storage *)
+Record bhost := mkBH {
+  bh_acc : list (Z * Z);          (* accumulatedRewardsForWeek *)
+  bh_rem : list (Z * Z);          (* remainingBoostedRewardsToDistribute *)
+  bh_sup : list (Z * Z);          (* farmSupplyForWeek *)
+  bh_und : Z;                     (* undistributedBoostedRewards *)
+  bh_lastcol : Z;                 (* lastUndistributedBoostedRewardsCollectWeek *)
+  bh_pct : Z;                     (* boostedYieldsRewardsPercentage *)
+  bh_cfg : option bconfig         (* boostedYieldsConfig; None = empty mapper *)
+}.
+
+Definition init_bh : bhost := mkBH [] [] [] 0 0 0 None.
+
+Definition set_acc (h : bhost) (w v : Z) : bhost :=
+  mkBH (aset (bh_acc h) w v) (bh_rem h) (bh_sup h) (bh_und h) (bh_lastcol h) (bh_pct h) (bh_cfg h).
+Definition set_rem (h : bhost) (w v : Z) : bhost :=
+  mkBH (bh_acc h) (aset (bh_rem h) w v) (bh_sup h) (bh_und h) (bh_lastcol h) (bh_pct h) (bh_cfg h).
+Definition set_sup (h : bhost) (w v : Z) : bhost :=
+  mkBH (bh_acc h) (bh_rem h) (aset (bh_sup h) w v) (bh_und h) (bh_lastcol h) (bh_pct h) (bh_cfg h).
+Definition set_und (h : bhost) (v : Z) : bhost :=
+  mkBH (bh_acc h) (bh_rem h) (bh_sup h) v (bh_lastcol h) (bh_pct h) (bh_cfg h).
+Definition set_lastcol (h : bhost) (v : Z) : bhost :=
+  mkBH (bh_acc h) (bh_rem h) (bh_sup h) (bh_und h) v (bh_pct h) (bh_cfg h).
+Definition set_pct (h : bhost) (v : Z) : bhost :=
+  mkBH (bh_acc h) (bh_rem h) (bh_sup h) (bh_und h) (bh_lastcol h) v (bh_cfg h).
+Definition set_cfg (h : bhost) (c : option bconfig) : bhost :=
+  mkBH (bh_acc h) (bh_rem h) (bh_sup h) (bh_und h) (bh_lastcol h) (bh_pct h) c.
+
+(** try_get_boosted_yields_config: the stored config brought to the current week, NOT written back *)
+Definition try_get_cfg (h : bhost) (cw : Z) : result (option bconfig) :=
+  match bh_cfg h with
+  | None => Ok None
+  | Some c => do c' <- cfg_update c cw None; Ok (Some c')
+  end.
+
+(** ------------------------------------------------------------------ lib.rs: take_reward_slice *)
+(** returns (storage, base_farm, boosted_farm) *)
+Definition take_reward_slice (h : bhost) (cw full : Z) : result (bhost * Z * Z) :=
+  if (bh_pct h =? 0) || (match bh_cfg h with None => true | Some _ => false end) then Ok (h, full, 0) else
+  let cut := full * bh_pct h / BOOSTED_MAX_PERCENT in
+  if 0 <? cut then
+    let h1 := set_acc h cw (aget (bh_acc h) cw + cut) in
+    do base <- sub_chk full cut;
+    Ok (h1, base, cut)
+  else Ok (h, full, cut).
+
+(** ------------------------------------------------------------------ the wrapper *)
+(** collect_rewards_for_week: write back the updated config, accumulated(week).take() -> remaining(week).set *)
+Definition b_collect (cw : Z) (h : bhost) (week : Z) : result (bhost * list (Z * Z)) :=
+  match bh_cfg h with
+  | None => Err EGuard                                                   (* "No config" *)
+  | Some c =>
+      do c' <- cfg_update c cw None;
+      let total := aget (bh_acc h) week in
+      Ok (set_rem (set_acc (set_cfg h (Some c')) week 0) week total, [(RTOK, total)])
+  end.
+
+(** base_impl.rs collect_and_get_rewards_for_week *)
+Definition b_collect_and_get (cw : Z) (h : bhost) (s : wstate) (week : Z)
+  : result (bhost * wstate * list (Z * Z)) :=
+  match rget (w_rewards s) week with
+  | [] => do (h', r) <- b_collect cw h week; Ok (h', set_rewards s (rset (w_rewards s) week r), r)
+  | r => Ok (h, s, r)
+  end.
+
+(** the formula of get_user_rewards_for_week, with its intermediate values *)
+Definition max_rewards (fa : factors) (R f F : Z) : Z := fa_max fa * R * f / F.
+Definition by_energy (fa : factors) (R e E : Z) : Z := R * fa_ce fa * e / E.
+Definition by_tokens (fa : factors) (R f F : Z) : Z := R * fa_cf fa * f / F.
+
+(** get_user_rewards_for_week; [pos] and [cfg] are the wrapper's fields (user_farm_amount and the
+    config as updated by try_get at the start of claim_boosted_yields_rewards) *)
+Definition boosted_hook (pos : Z) (cfg : bconfig) (cw : Z)
+  (h : bhost) (s : wstate) (week e E : Z) : result (bhost * wstate * list (Z * Z)) :=
+  let F := aget (bh_sup h) week in
+  if (E =? 0) || (F =? 0) then Ok (h, s, []) else
+  do fa <- get_factors_for_week cfg week;
+  if (e <? fa_mine fa) || (pos <? fa_minf fa) then Ok (h, s, []) else
+  do (h1, s1, tot) <- b_collect_and_get cw h s week;
+  match tot with
+  | [] => Ok (h1, s1, [])
+  | [(t, R)] =>
+      if R =? 0 then Ok (h1, s1, []) else
+      let mx := max_rewards fa R pos F in
+      let be := by_energy fa R e E in
+      let bt := by_tokens fa R pos F in
+      do amt <- div_chk (be + bt) (fa_ce fa + fa_cf fa);
+      let ur := Z.min mx amt in
+      if 0 <? ur then
+        do rem <- sub_chk (aget (bh_rem h1) week) ur;
+        Ok (set_rem h1 week rem, s1, [(t, ur)])
+      else Ok (h1, s1, [])
+  | _ => Err EGuard                                                      (* "Invalid boosted yields rewards" *)
+  end.
+
+(** claim_boosted_yields_rewards: per-week breakdown; the endpoint adds the amounts up *)
+Definition claim_boosted (h : bhost) (s : wstate) (user pos cw : Z) (cur : en)
+  : result (bhost * wstate * list (Z * list (Z * Z))) :=
+  do oc <- try_get_cfg h cw;
+  match oc with
+  | None => Ok (h, s, [])
+  | Some cfg => claim_multi bhost (boosted_hook pos cfg cw) h s user cw cur
+  end.
+
+Definition pay_total (det : list (Z * list (Z * Z))) : Z :=
+  fold_right (fun p acc => snd p + acc) 0 (flat_rewards det).
+
+(** clear_user_energy_if_needed *)
+Definition clear_if_needed (h : bhost) (s : wstate) (user cw epoch posa : Z) : result wstate :=
+  do oc <- try_get_cfg h cw;
+  match oc with
+  | None => Ok s
+  | Some cfg => clear_user_energy s user cw epoch posa (fa_minf (last_slot cfg))
+  end.
+
+(** the weeks first..last swept by collectUndistributedBoostedRewards: (week, amount taken) *)
+Fixpoint sweep (n : nat) (week : Z) (h : bhost) : bhost * list (Z * Z) :=
+  match n with
+  | O => (h, [])
+  | S n' =>
+      let x := aget (bh_rem h) week + aget (bh_acc h) week in
+      let h1 := set_und (set_acc (set_rem h week 0) week 0) (bh_und h + x) in
+      let '(h2, l) := sweep n' (week + 1) h1 in
+      (h2, (week, x) :: l)
+  end.
+
+(** ------------------------------------------------------------------ the hosting farm *)
+Record bst := mkB {
+  b_h : bhost;
+  b_w : wstate;
+  b_first : Z;            (* firstWeekStartEpoch *)
+  b_epoch : Z             (* current block epoch *)
+}.
+
+Definition init_b (epoch : Z) : bst := mkB init_bh init_w epoch epoch.
+
+Definition with_hw (s : bst) (h : bhost) (w : wstate) : bst := mkB h w (b_first s) (b_epoch s).
+
+Definition current_week (s : bst) : result Z := week_for_epoch (b_first s) (b_epoch s).
+
+Inductive bop :=
+| BAdvance (n : Z)                                              (* the chain moves on by n epochs *)
+| BEnter (pre : bool) (u : Z) (cur : en) (pos full supply : Z)  (* enterFarm *)
+| BClaim (pre : bool) (u : Z) (cur : en) (pos full supply : Z)  (* claimRewards *)
+| BCompound (pre : bool) (u : Z) (cur : en) (pos full supply : Z)      (* compoundRewards *)
+| BExit (pre : bool) (u : Z) (cur : en) (pos posa full supply : Z)     (* exitFarm *)
+| BMerge (pre : bool) (u : Z) (cur : en) (pos : Z)              (* mergeFarmTokens *)
+| BClaimBoosted (pre : bool) (u : Z) (cur : en) (pos full supply : Z)  (* claimBoostedRewards *)
+| BSettle (pre : bool) (full : Z)        (* setPerBlockRewardAmount / endProduceRewards: generate_aggregated_rewards only *)
+| BSetPct (c p full : Z)                                        (* setBoostedYieldsRewardsPercentage *)
+| BSetFactors (c : Z) (f : factors)                             (* setBoostedYieldsFactors *)
+| BCollect (c : Z)                                              (* collectUndistributedBoostedRewards *)
+| BUpdateEnergy (u : Z) (cur : en).                             (* updateEnergyForUser *)
+
+(** what an operation hands back: total boosted payout (Model/Farm.v's [b]), its per-week breakdown,
+    the cut take_reward_slice moved into the running week's pool, the weeks swept into undistributed *)
+Record bout := mkOut {
+  o_b : Z;
+  o_det : list (Z * list (Z * Z));
+  o_cut : Z;
+  o_swept : list (Z * Z)
+}.
+Definition out0 : bout := mkOut 0 [] 0 [].
+
+(** operation inputs are BigUints *)
+Definition wf_in (cur : en) (pos full supply : Z) : bool :=
+  (0 <=? en_tok cur) && (0 <=? pos) && (0 <=? full) && (0 <=? supply).
+
+Definition admin (c : Z) : bool := c =? ADMIN.
+
+Definition ep_advance (s : bst) (n : Z) : result (bst * bout) :=
+  check (0 <=? n) else EGuard;
+  Ok (mkB (b_h s) (b_w s) (b_first s) (b_epoch s + n), out0).
+
+(** enterFarm: claim_only_boosted_payment (old position) ; enter_farm_base (position update, then
+    generate_aggregated_rewards) ; set_farm_supply_for_current_week ; update_energy_and_progress *)
+Definition ep_enter (s : bst) (pre : bool) (u : Z) (cur : en) (pos full supply : Z) : result (bst * bout) :=
+  check pre else EGuard;
+  check wf_in cur pos full supply else EGuard;
+  do cw <- current_week s;
+  do (h1, w1, det) <- claim_boosted (b_h s) (b_w s) u pos cw cur;
+  do (h2, _, cut) <- take_reward_slice h1 cw full;
+  let h3 := set_sup h2 cw supply in
+  do w2 <- update_energy_and_progress w1 u cw cur;
+  Ok (with_hw s h3 w2, mkOut (pay_total det) det cut []).
+
+(** claimRewards: generate_aggregated_rewards ; calculate_rewards (boosted claim with the old position) ;
+    check_and_update_user_farm_position ; set_farm_supply_for_current_week *)
+Definition ep_claim (s : bst) (pre : bool) (u : Z) (cur : en) (pos full supply : Z) : result (bst * bout) :=
+  check pre else EGuard;
+  check wf_in cur pos full supply else EGuard;
+  do cw <- current_week s;
+  do (h1, _, cut) <- take_reward_slice (b_h s) cw full;
+  do (h2, w1, det) <- claim_boosted h1 (b_w s) u pos cw cur;
+  let h3 := set_sup h2 cw supply in
+  Ok (with_hw s h3 w1, mkOut (pay_total det) det cut []).
+
+(** compoundRewards: as claimRewards, then update_energy_and_progress *)
+Definition ep_compound (s : bst) (pre : bool) (u : Z) (cur : en) (pos full supply : Z) : result (bst * bout) :=
+  check pre else EGuard;
+  check wf_in cur pos full supply else EGuard;
+  do cw <- current_week s;
+  do (h1, _, cut) <- take_reward_slice (b_h s) cw full;
+  do (h2, w1, det) <- claim_boosted h1 (b_w s) u pos cw cur;
+  let h3 := set_sup h2 cw supply in
+  do w2 <- update_energy_and_progress w1 u cw cur;
+  Ok (with_hw s h3 w2, mkOut (pay_total det) det cut []).
+
+(** exitFarm: as claimRewards (position decreased afterwards), then clear_user_energy_if_needed *)
+Definition ep_exit (s : bst) (pre : bool) (u : Z) (cur : en) (pos posa full supply : Z) : result (bst * bout) :=
+  check pre else EGuard;
+  check wf_in cur pos full supply && (0 <=? posa) else EGuard;
+  do cw <- current_week s;
+  do (h1, _, cut) <- take_reward_slice (b_h s) cw full;
+  do (h2, w1, det) <- claim_boosted h1 (b_w s) u pos cw cur;
+  let h3 := set_sup h2 cw supply in
+  do w2 <- clear_if_needed h3 w1 u cw (b_epoch s) posa;
+  Ok (with_hw s h3 w2, mkOut (pay_total det) det cut []).
+
+(** mergeFarmTokens: claim_only_boosted_payment (old position) ; no settlement, no supply update *)
+Definition ep_merge (s : bst) (pre : bool) (u : Z) (cur : en) (pos : Z) : result (bst * bout) :=
+  check pre else EGuard;
+  check wf_in cur pos 0 0 else EGuard;
+  do cw <- current_week s;
+  do (h1, w1, det) <- claim_boosted (b_h s) (b_w s) u pos cw cur;
+  Ok (with_hw s h1 w1, mkOut (pay_total det) det 0 []).
+
+(** claimBoostedRewards: user_total_farm_position must not be empty ; generate_aggregated_rewards ;
+    boosted claim ; set_farm_supply_for_current_week *)
+Definition ep_claim_boosted (s : bst) (pre : bool) (u : Z) (cur : en) (pos full supply : Z) : result (bst * bout) :=
+  check pre else EGuard;
+  check wf_in cur pos full supply else EGuard;
+  check negb (pos =? 0) else EGuard;
+  do cw <- current_week s;
+  do (h1, _, cut) <- take_reward_slice (b_h s) cw full;
+  do (h2, w1, det) <- claim_boosted h1 (b_w s) u pos cw cur;
+  let h3 := set_sup h2 cw supply in
+  Ok (with_hw s h3 w1, mkOut (pay_total det) det cut []).
+
+Definition ep_settle (s : bst) (pre : bool) (full : Z) : result (bst * bout) :=
+  check pre else EGuard;
+  check (0 <=? full) else EGuard;
+  do cw <- current_week s;
+  do (h1, _, cut) <- take_reward_slice (b_h s) cw full;
+  Ok (with_hw s h1 (b_w s), mkOut 0 [] cut []).
+
+Definition ep_set_pct (s : bst) (c p full : Z) : result (bst * bout) :=
+  check admin c else EPerm;
+  check (0 <=? p) && (p <=? BOOSTED_MAX_PERCENT) else EGuard;
+  check (0 <=? full) else EGuard;
+  do cw <- current_week s;
+  do (h1, _, cut) <- take_reward_slice (b_h s) cw full;
+  Ok (with_hw s (set_pct h1 p) (b_w s), mkOut 0 [] cut []).
+
+Definition ep_set_factors (s : bst) (c : Z) (f : factors) : result (bst * bout) :=
+  check admin c else EPerm;
+  check (0 <=? fa_max f) && (0 <=? fa_ce f) && (0 <=? fa_cf f) else EGuard;       (* BigUint arguments *)
+  check (0 <? fa_mine f) && (0 <? fa_minf f) else EGuard;                         (* "Min amounts must be greater than 0" *)
+  do cw <- current_week s;
+  do c' <- match bh_cfg (b_h s) with
+           | Some cfg => cfg_update cfg cw (Some f)
+           | None => Ok (cfg_new cw f)
+           end;
+  Ok (with_hw s (set_cfg (b_h s) (Some c')) (b_w s), out0).
+
+Definition ep_collect (s : bst) (c : Z) : result (bst * bout) :=
+  check admin c else EPerm;
+  do cw <- current_week s;
+  check (COLLECT_OFFSET <? cw) else EGuard;               (* "Current week must be higher than the week offset" *)
+  let first := bh_lastcol (b_h s) + 1 in
+  let last := cw - COLLECT_OFFSET in
+  if last <? first then Ok (s, out0) else
+  let '(h1, l) := sweep (Z.to_nat (last - first + 1)) first (b_h s) in
+  Ok (with_hw s (set_lastcol h1 last) (b_w s), mkOut 0 [] 0 l).
+
+Definition ep_update_energy (s : bst) (u : Z) (cur : en) : result (bst * bout) :=
+  check (0 <=? en_tok cur) else EGuard;
+  do cw <- current_week s;
+  do w' <- update_energy_for_user (b_w s) u cw cur;
+  Ok (with_hw s (b_h s) w', out0).
+
+Definition step (s : bst) (op : bop) : result (bst * bout) :=
+  match op with
+  | BAdvance n => ep_advance s n
+  | BEnter pre u cur pos full supply => ep_enter s pre u cur pos full supply
+  | BClaim pre u cur pos full supply => ep_claim s pre u cur pos full supply
+  | BCompound pre u cur pos full supply => ep_compound s pre u cur pos full supply
+  | BExit pre u cur pos posa full supply => ep_exit s pre u cur pos posa full supply
+  | BMerge pre u cur pos => ep_merge s pre u cur pos
+  | BClaimBoosted pre u cur pos full supply => ep_claim_boosted s pre u cur pos full supply
+  | BSettle pre full => ep_settle s pre full
+  | BSetPct c p full => ep_set_pct s c p full
+  | BSetFactors c f => ep_set_factors s c f
+  | BCollect c => ep_collect s c
+  | BUpdateEnergy u cur => ep_update_energy s u cur
+  end.
+
+(** A failed transaction reverts: the runner keeps the old state. *)
+Definition step_total (s : bst) (op : bop) : bst :=
+  match step s op with Ok (s', _) => s' | Err _ => s end.
+
+Definition run (s : bst) (ops : list bop) : bst := fold_left step_total ops s.
+
+(** ------------------------------------------------------------------ views *)
+Definition view_acc (s : bst) (w : Z) : Z := aget (bh_acc (b_h s)) w.        (* getAccumulatedRewardsForWeek *)
+Definition view_rem (s : bst) (w : Z) : Z := aget (bh_rem (b_h s)) w.        (* getRemainingBoostedRewardsToDistribute *)
+Definition view_sup (s : bst) (w : Z) : Z := aget (bh_sup (b_h s)) w.        (* getFarmSupplyForWeek *)
+Definition view_und (s : bst) : Z := bh_und (b_h s).                         (* getUndistributedBoostedRewards *)
+Definition view_lastcol (s : bst) : Z := bh_lastcol (b_h s).
+Definition view_pct (s : bst) : Z := bh_pct (b_h s).                         (* getBoostedYieldsRewardsPercentage *)
+Definition view_factors (s : bst) : option factors :=                        (* getBoostedYieldsFactors *)
+  match bh_cfg (b_h s) with Some c => Some (last_slot c) | None => None end.
+Definition view_total_rewards (s : bst) (w : Z) : list (Z * Z) := rget (w_rewards (b_w s)) w.   (* getTotalRewardsForWeek *)
+Definition view_total_energy (s : bst) (w : Z) : Z := aget (w_energy (b_w s)) w.               (* getTotalEnergyForWeek *)
+Definition view_progress (s : bst) (u : Z) : option progress := pfind (w_prog (b_w s)) u.      (* getCurrentClaimProgress *)
+Definition view_last_global (s : bst) : Z := w_last (b_w s).                                   (* getLastGlobalUpdateWeek *)
